@@ -217,6 +217,37 @@ fn boundaries(s: &str) -> Vec<usize> {
     (0..=s.len()).filter(|&i| s.is_char_boundary(i)).collect()
 }
 
+/// what may stand before a word: 1..4 segments out of blanks, bare (escaped) words, and closed
+/// quoted segments that end in a run of backslashes (single quotes: literal, so the run may be odd;
+/// double quotes: escaped pairs) - possibly directly before the word (D26)
+fn segments(rng: &mut Rng) -> String {
+    let mut s = String::new();
+    for _ in 0..1 + rng.below(4) {
+        match rng.below(5) {
+            0 => s.push(' '),
+            1 => {
+                let w: String = (0..rng.below(3)).map(|_| *rng.pick(&['a', ' ', '\\', '\'', '"', 'é'])).collect();
+                s.push_str(&typed('N', &w));
+            }
+            2 | 3 => {
+                let w: String = (0..rng.below(3)).map(|_| *rng.pick(&['a', ' ', '"', 'é'])).collect();
+                s.push('\'');
+                s.push_str(&w);
+                s.push_str(&"\\".repeat(rng.below(4)));
+                s.push('\'');
+            }
+            _ => {
+                let w: String = (0..rng.below(3)).map(|_| *rng.pick(&['a', ' ', '\'', 'é'])).collect();
+                s.push('"');
+                s.push_str(&w);
+                s.push_str(&"\\\\".repeat(rng.below(3)));
+                s.push('"');
+            }
+        }
+    }
+    s
+}
+
 /// pure functions: exhaustive over the strings of length <= 5 (`ext`: <= 6, thorough <= 7)
 pub fn gen_pure(ctx: &GenCtx, sink: &mut dyn FnMut(String)) {
     all_strings(5, &mut |s| {
@@ -239,6 +270,16 @@ pub fn gen_pure(ctx: &GenCtx, sink: &mut dyn FnMut(String)) {
             }
         }
     });
+    // lines made of segments (see `segments`), then a bare word; cursor at the end.  The public
+    // helper is judged against its own quote-blind contract here; the completer's reading of such
+    // lines is checked by `gen_fs`
+    let mut rng = Rng::new(ctx.seed ^ 0xD26);
+    for _ in 0..(if ctx.thorough { 100_000 } else { 10_000 }) {
+        let mut s = segments(&mut rng);
+        let w: String = (0..rng.below(3)).map(|_| *rng.pick(&['a', ' ', '\\', 'é'])).collect();
+        s.push_str(&typed('N', &w));
+        sink(format!("comp ext 1 {} {}", enc_text(&s), s.len()));
+    }
     // random longer lines over a richer alphabet
     let mut rng = Rng::new(ctx.seed ^ 0xC15);
     let rich: Vec<char> = ALPHA.iter().copied().chain(['\\', '\\', ' ', 'b', '/', '=', '漢', '😀', '\t', '`']).collect();
@@ -319,9 +360,11 @@ fn entry(dir: &str, name: &str, isdir: bool) -> String {
 }
 
 /// what is typed before the partial path: typical prefixes, and prefixes whose last blank is / is not
-/// escaped, after escaped backslashes, after closed quotes
+/// escaped, after escaped backslashes, after closed quotes; the last four end in a closed quoted
+/// segment that itself ends in backslashes, directly before the word (D26)
 const PRES: &[&str] = &[
     "", "ls ", "x=", "a\\ b ", "\"a b\" ", "'a' ", "q\\\\ ", "q\\\\\\ ", "é\\\\\\\\ ", "'a\\' ", "\"a\\\\\" ", "a\\ ", "ls -l (",
+    "'a\\'", "ls '\\\\\\'", "\"a\\\\\"", "'é \\'\\ ",
 ];
 
 /// `main` deals requests to shards round-robin; a directory tree is expensive to create, so the
@@ -365,6 +408,26 @@ pub fn gen_fs(ctx: &GenCtx, sink: &mut dyn FnMut(String)) {
             sink(format!("cfs F {} {} {}", enc_text(&l), l.len(), fs));
         }
     });
+    // the fixed tree again: segment-built prefixes (closed quoted segments ending in backslash runs,
+    // possibly directly before the word: D26) followed by a typed partial name, in the three contexts
+    let mut srng = Rng::new(ctx.seed ^ 0xD26F);
+    let fixed_names = ["a", "a a", " a", "é", "aé", "a'", "\"a", "$(", "\\", "\\ a", "a\\", "é/é é", " a/a\"a"];
+    for _ in 0..(if ctx.thorough { 30_000 } else { 3_000 }) {
+        let pre = segments(&mut srng);
+        let n: Vec<char> = srng.pick(&fixed_names).chars().collect();
+        let part: String = n[..srng.below(n.len() + 1)].iter().collect();
+        let q = *srng.pick(&['N', 'N', 'D', 'S']);
+        if q == 'S' && part.contains('\'') {
+            continue;
+        }
+        let open = match q {
+            'D' => "\"",
+            'S' => "'",
+            _ => "",
+        };
+        let l = format!("{}{}{}", pre, open, typed(q, &part));
+        sink(format!("cfs F {} {} {}", enc_text(&l), l.len(), fs));
+    }
     // cursor inside the line
     for l in ["a a", "ls a\\ a", "ls \"a a\"", "ls 'a a' é", "éa"] {
         for p in 0..=l.len() + 1 {
